@@ -222,6 +222,11 @@ impl Walrus {
             return Ok(writer);
         }
 
+        // A topic whose name does not fit into the entry header can never be written; refuse
+        // it before a block is allocated for it (and before the batch path, which copies the
+        // header unchecked, can panic on it).
+        crate::wal::block::validate_owner_name(col_name)?;
+
         // SAFETY: The returned block will be held by this writer only
         // and appended/sealed before being exposed to readers.
         let initial_block = unsafe { self.allocator.get_next_available_block()? };
